@@ -38,7 +38,8 @@ M("C12", "cuckoo-union-drop-table-restore", (CF, "                    self.table
 M("C12", "cuckoo-union-drop-len-restore", (CF, "                    self.n_elements = n_elements_backup;\n                    return Err(err);", "                    return Err(err);"), "R12-restore", "union:n_elements")
 M("C12", "cuckoo-union-revert-to-log-only", (CF, "                    self.table = table_backup;\n", "                    self.restore_state(&log);\n"), "R12-restore", "union:table")
 M("C12", "cuckoo-insert-conditional-restore", (CF, "        if result.is_err() {\n            self.restore_state(&log);\n        }\n", "        if result.is_err() && log.len() > 1 {\n            self.restore_state(&log);\n        }\n"), "R12-restore", "insert:table")
-M("C12", "cuckoo-log-after-set", (CF, "            log.push((x, tmp));\n            self.table.set(x as u64, f);\n", "            self.table.set(x as u64, f);\n            log.push((x, tmp));\n"), "R12-restore", "insert:table")
+B("C12", "cuckoo-log-after-set", (CF, "            log.push((x, tmp));\n            self.table.set(x as u64, f);\n", "            self.table.set(x as u64, f);\n            log.push((x, tmp));\n"))
+M("C12", "cuckoo-log-only-every-other-kick", (CF, "            log.push((x, tmp));\n            self.table.set(x as u64, f);\n", "            if log.len() % 2 == 0 {\n                log.push((x, tmp));\n            }\n            self.table.set(x as u64, f);\n"), "R12-restore", "insert:table")
 M("C12", "cuckoo-forward-replay", (CF, "for (pos, data) in log.iter().rev().cloned() {", "for (pos, data) in log.iter().cloned() {"), "R12-replay-helper", "restore_state")
 M("C12", "quotient-union-second-site-misses-shifted", (QF, "                        self.is_continuation = is_continuation_backup;\n                        self.is_shifted = is_shifted_backup;\n                        self.remainders = remainders_backup;\n                        self.n_elements = n_elements_backup;\n                        return Err(err);\n                    }\n\n                    self.incr(&mut j)", "                        self.is_continuation = is_continuation_backup;\n                        self.remainders = remainders_backup;\n                        self.n_elements = n_elements_backup;\n                        return Err(err);\n                    }\n\n                    self.incr(&mut j)"), "R12-restore", "union:is_shifted")
 M("C12", "quotient-backup-after-first-insert", [(QF, "        let remainders_backup = self.remainders.clone();\n        let n_elements_backup = self.n_elements;\n", "        let n_elements_backup = self.n_elements;\n"),
